@@ -8,6 +8,7 @@ CONSTANTS
   DEV_CopyMisMaps = FALSE
   DEV_PickleNoRebuild = TRUE
   DEV_AddRebuildsFirst = FALSE
+  DEV_DeferredRemoveKeepsPolygon = FALSE
   DEV_DiscHalfRadius = FALSE
 INVARIANT TypeOK
 INVARIANT IndexMirrors
